@@ -195,7 +195,7 @@ def filter_worker(args):
                 p = subprocess.run([cli, "unroll", "--format", "%b", "--filter", filt, fn], stdout=subprocess.PIPE,
                                    stderr=subprocess.PIPE, env=env, timeout=60)
             except subprocess.TimeoutExpired:
-                part.violation("filter/hang", {"input": filt, "summary": "echse unroll --filter '%s' did not finish in 60 s" % filt})
+                part.violation("filter/hang/" + filt, {"input": filt, "summary": "echse unroll --filter '%s' did not finish in 60 s" % filt})
                 continue
             err = p.stderr.decode(errors="replace")
             head, frames = san_summary(err)
